@@ -460,6 +460,9 @@ def check(db, rep):
     order_rule(db, r7)
     r8 = rep.rule('r8', 'NORMALISE-SCOPE: eliminating a tuple declaration rewrites every in-scope occurrence of its variables (also a child that is itself a bare variable)', 5)
     normalise_scope_rule(db, r8, tg)
+    r9 = rep.rule('r9', 'TYPING-SUPPORT (shared with C03 r8, r9): the checker accepts a set-theoretic construct only when the typing rule derives a type, and the type algebra is the specificity order; the evaluator dereferences exactly these structures', 17)
+    C03.type_algebra(db, r9)
+    note['typing_rule_cases'] = C03.typing_rules(db, r9, rep.tier)
     for k, v in note.items():
         rep.note(k, v)
 
